@@ -111,7 +111,7 @@ package gpbft
 //@ pred opaque scaledOK(s mathint, pw mathint, T mathint) = 0 <= s && s <= 65535 && s*T <= 65535*pw && 65535*pw < (s+1)*T
 
 //@ func (PowerEntries).Scaled
-//@   property C08
+//@   property C08 C03 C04 C19
 //@   requires sumPowDef(p)
 //@   ensures forall(i, 0, len(p), p[i].Power > 0) ==> err == nil
 //@   ensures err == nil ==> len(scaled) == len(p) && 0 <= total && total <= 65535
@@ -128,6 +128,10 @@ package gpbft
 //@     invariant forall(n, 0, len(p)+1, 0 <= sumPow(p, n) && sumPow(p, n) <= totalUnscaled, trigger(sumPow(p, n)))
 //@     invariant (iter == 0 ==> total == 0) && 0 <= total && total*totalUnscaled <= 65535*sumPow(p, iter)
 //@     invariant forall(j, 0, iter, scaledOK(scaled[j], p[j].Power, totalUnscaled), trigger(scaled[j]))
+//@   at loopback 2
+//@     before[the_total_is_the_running_sum_of_the_scaled_entries] total == prev(total) + scaled[i] && (i == 0 ==> prev(total) == 0)
+//@   at return 2
+//@     before[the_total_returned_is_that_sum_the_same_one_rescale_computes] arg(1) == total && arg(0) == scaled && arg(2) == nil
 
 //@ pred ptSums(p *PowerTable) = sumPowDef(p.Entries) && p.Total == sumPow(p.Entries, len(p.Entries))
 //@     && len(p.ScaledPower) == len(p.Entries)
@@ -149,6 +153,8 @@ package gpbft
 //@     invariant ptSums(p) && p.Entries == old(p.Entries) && p.ScaledPower == old(p.ScaledPower) && p.Total == old(p.Total)
 //@     invariant (iter == 0 ==> p.ScaledTotal == 0) && 0 <= p.ScaledTotal && p.ScaledTotal*p.Total <= 65535*sumPow(p.Entries, iter)
 //@     invariant forall(j, 0, iter, scaledOK(p.ScaledPower[j], p.Entries[j].Power, p.Total), trigger(p.ScaledPower[j]))
+//@   at loopback 1
+//@     before[the_scaled_total_is_the_running_sum_of_the_scaled_entries] p.ScaledTotal == prev(p.ScaledTotal) + p.ScaledPower[i]
 
 //@ lemma scaling_is_order_preserving_and_agrees
 //@   property C08
@@ -1189,3 +1195,99 @@ package gpbft
 //@     invariant c.TipSets == old(c.TipSets) && len(c.TipSets) == len(other.TipSets)
 //@   at return 4
 //@     before[equal_only_after_every_position_was_compared] arg(0) && len(c.TipSets) == len(other.TipSets) && len(c.TipSets) > 0
+
+// ---- small chain and tipset helpers every property leans on. Each is proved against its full meaning; callers keep
+// ---- inlining the bodies ("inlined"), so these contracts add obligations without changing any other proof.
+//@ pred isBottom(c *ECChain) = c == nil || len(c.TipSets) == 0
+
+//@ func (*ECChain).IsZero
+//@   property C01 C02 C03 C04 C05 C07 C09 C13 C15 C18 C19
+//@   inlined
+//@   modifies nothing
+//@   ensures[bottom_is_nil_or_no_tipsets] result == isBottom(c)
+
+//@ func (*ECChain).Len
+//@   property C01 C02 C04 C05 C07 C15 C18
+//@   inlined
+//@   modifies nothing
+//@   ensures[length_is_the_number_of_tipsets] result == ite(c == nil, 0, len(c.TipSets))
+
+//@ func (*ECChain).Base
+//@   property C01 C02 C04 C07 C15 C18 C19
+//@   inlined
+//@   modifies nothing
+//@   ensures[the_base_is_the_first_tipset] ite(isBottom(c), result == nil, result == c.TipSets[0])
+
+//@ func (*ECChain).Head
+//@   property C04 C09 C10 C12 C15 C19
+//@   inlined
+//@   modifies nothing
+//@   ensures[the_head_is_the_last_tipset] ite(isBottom(c), result == nil, result == c.TipSets[len(c.TipSets)-1])
+
+//@ func (*ECChain).Suffix
+//@   property C02 C04 C07 C09
+//@   inlined
+//@   modifies nothing
+//@   ensures[the_suffix_is_everything_after_the_base] ite(isBottom(c), len(result) == 0, len(result) == len(c.TipSets) - 1 && forall(j, 0, len(result), result[j] == c.TipSets[j+1], trigger(result[j])))
+
+//@ func (*ECChain).Prefix
+//@   property C02 C07 C15 C18
+//@   inlined
+//@   modifies auto
+//@   maypanic bounds a negative length is a programming error of the caller (every caller passes a loop counter or ChainMaxLen-1)
+//@   ensures[bottom_has_no_prefix] isBottom(c) ==> result == nil
+//@   ensures[a_prefix_keeps_the_base_and_at_most_that_many_more_tipsets_in_order] !isBottom(c) && to >= 0 ==> result != nil && len(result.TipSets) == min(to + 1, len(c.TipSets))
+//@        && cap(result.TipSets) == len(result.TipSets) && forall(j, 0, len(result.TipSets), result.TipSets[j] == c.TipSets[j], trigger(result.TipSets[j]))
+
+//@ func (*ECChain).BaseChain
+//@   property C02 C07 C15
+//@   inlined
+//@   modifies auto
+//@   ensures[the_base_chain_is_the_base_alone] ite(isBottom(c), result == nil, result != nil && len(result.TipSets) == 1 && result.TipSets[0] == c.TipSets[0])
+
+//@ func (*ECChain).HasBase
+//@   property C01 C02 C07 C19
+//@   modifies auto
+//@   maypanic
+//@   at return 0
+//@     before[a_chain_has_a_base_only_if_it_is_not_bottom_and_its_first_tipset_equals_it] arg(0) ==> t != nil && !isBottom(c) && res(Equal, 1) && argOf(Equal, 1, 0) == c.TipSets[0] && argOf(Equal, 1, 1) == t
+//@     before[and_whenever_that_is_so] t != nil && !isBottom(c) && called(Equal, 1) && res(Equal, 1) ==> arg(0)
+
+//@ func (*ECChain).Append
+//@   property C04
+//@   inlined
+//@   modifies auto
+//@   maypanic
+//@   ensures[appending_keeps_the_chain_and_adds_the_suffix_in_order] result != nil && len(result.TipSets) == ite(c == nil, 0, len(c.TipSets)) + len(suffix)
+//@        && (c != nil ==> forall(j, 0, len(c.TipSets), result.TipSets[j] == old(c.TipSets[j]), trigger(result.TipSets[j])))
+//@        && forall(j, 0, len(suffix), result.TipSets[ite(c == nil, 0, len(c.TipSets)) + j] == suffix[j], trigger(suffix[j]))
+
+// Two tipsets are equal when both are nil, or neither is and epoch, key, power-table CID and commitments all agree.
+//@ func (*TipSet).Equal
+//@   property C01 C04 C05 C07 C13 C18 C19
+//@   modifies auto
+//@   maypanic
+//@   at return 1
+//@     before[a_nil_tipset_equals_only_nil] (ts == nil || b == nil) && arg(0) == (ts == b)
+//@   at return 2
+//@     before[all_four_fields_are_compared] ts != nil && b != nil && arg(0) == (ts.Epoch == b.Epoch && bytesEq(ts.Key, b.Key) && res(Equals, 1) && ts.Commitments == b.Commitments)
+//@   at Equals 1
+//@     before[the_power_table_cids_are_compared] arg(0) == ts.PowerTable && arg(1) == b.PowerTable
+
+//@ func (ECChainKey).IsZero
+//@   property C01 C02 C03 C05 C13 C18
+//@   inlined
+//@   modifies nothing
+//@   ensures[the_bottom_key_is_the_zero_digest] result == (k == merkle.ZeroDigest)
+
+// A new chain is the base followed by the suffix in order, and is handed out only if it validates.
+//@ func NewChain
+//@   property C15
+//@   modifies auto
+//@   maypanic bounds a suffix has far fewer than 2^47 tipsets (the allocation of len(suffix)+1 slots cannot overflow)
+//@   at Validate 1
+//@     before[the_chain_is_the_base_followed_by_the_suffix] len(chain.TipSets) == len(suffix) + 1 && chain.TipSets[0] == base && forall(j, 0, len(suffix), chain.TipSets[j+1] == suffix[j], trigger(suffix[j]))
+//@   at return 2
+//@     before[only_a_validated_chain_is_handed_out] res(Validate, 1) == nil && arg(1) == nil && arg(0) == &chain
+//@   at return 1
+//@     before[an_invalid_chain_is_refused] res(Validate, 1) != nil && arg(0) == nil && arg(1) != nil
